@@ -186,6 +186,21 @@ def Q.crash (q : Q) : Q :=
   let disk := if q.segs.isEmpty then q.closedSegs else q.segs.map fun (s : Seg) => { s with buf := [] }
   ({ q with segs := [], closedSegs := disk }).open_
 
+/-- **A crash that tears the flush of one more block.** `flush` writes the block over the
+newest segment's footer (the head offset) and the footer again behind it; `k` bytes of that
+write reach the file. With fewer than 8 the footer is intact (for the small offsets and
+lengths of the checks its leading bytes are zero either way) and nothing happened. From 8 on
+the head offset is gone: the restart keeps the segment's complete records and delivers them
+again from the first (`segment.recoverRecords`); the torn block is among them if all of it
+arrived (`k ≥ 8 + length`). -/
+def Q.crashTorn (q : Q) (b : Block) (k : Nat) : Q :=
+  let disk := if q.segs.isEmpty then q.closedSegs else q.segs.map fun (s : Seg) => { s with buf := [] }
+  -- the torn bytes are a write to the newest segment's file: it is not old any more
+  let disk := updLast (fun (s : Seg) =>
+    if k < 8 then { s with old := false }
+    else { s with old := false, pos := 0, blocks := s.blocks ++ (if k ≥ 8 + b.length then [b] else []) }) disk
+  ({ q with segs := [], closedSegs := disk }).open_
+
 /-- **The abstraction**: pending blocks in FIFO order -/
 def Q.pending (q : Q) : List Block :=
   q.segs.flatMap fun s => s.blocks.drop s.pos ++ s.buf
